@@ -9,6 +9,7 @@ import (
 	"runtime/debug"
 	"strings"
 	"sync"
+	"sync/atomic"
 	"testing/synctest"
 	"time"
 
@@ -120,6 +121,13 @@ type simWriter struct {
 	// does not treat as durably blocked, and the bubble would never go quiescent.
 	noblock bool
 	sink    func([]byte)
+	// in counts the Write calls in progress; overlap is set when a call is
+	// entered while another one is parked waiting for its grant, i.e. when two
+	// goroutines of the driver use the consumer's io.Writer at the same time
+	// (io.Writer promises nothing about concurrent use). Deterministic: the
+	// first call is durably parked until the scheduler grants it.
+	in      atomic.Int32
+	overlap atomic.Bool
 }
 
 // writerNoBlock is set per worker process by the driver (see Job.NoBlockWriter).
@@ -134,6 +142,10 @@ func (w *simWriter) Write(p []byte) (int, error) {
 		w.sink(append([]byte(nil), p...))
 		return len(p), nil
 	}
+	if w.in.Add(1) > 1 {
+		w.overlap.Store(true)
+	}
+	defer w.in.Add(-1)
 	w.offer <- append([]byte(nil), p...)
 	if ok := <-w.grant; !ok {
 		return 0, errSimWrite
@@ -143,14 +155,15 @@ func (w *simWriter) Write(p []byte) (int, error) {
 
 // uciWorld is the simulator proper: the only goroutine that takes decisions.
 type uciWorld struct {
-	sc   *UCIScenario
-	out  *UCIOutcome
-	rd   *simReader
-	wr   *simWriter
-	errW *bytes.Buffer
-	co   *coop
-	done chan struct{}
-	t0   time.Time
+	overlapSeen bool
+	sc          *UCIScenario
+	out         *UCIOutcome
+	rd          *simReader
+	wr          *simWriter
+	errW        *bytes.Buffer
+	co          *coop
+	done        chan struct{}
+	t0          time.Time
 
 	pipe        [][]byte
 	eofQueued   bool
@@ -390,6 +403,10 @@ func (w *uciWorld) settle() {
 		synctest.Wait()
 		progressed := w.flushAsync()
 		w.inspect()
+		if !w.overlapSeen && w.wr.overlap.Load() {
+			w.overlapSeen = true
+			w.ev("CONCWRITE", "", 0)
+		}
 		if len(w.pipe) > 0 {
 			chunk := w.pipe[0]
 			if w.safeToPump(chunk) {
